@@ -288,6 +288,9 @@ func generate(a lib.Args, bi map[string][]Step, base func(string) []Step, add fu
 			mode = "known"
 		}
 		in := randomHistory(r, p, skipTx, base(p), mode)
+		if r.Chance(1, 3) {
+			in.Fire = lib.Pick(r, []string{"scopes", "nilptr", "ptrptr", "badmodel", "modelonly"})
+		}
 		if mode == "main" {
 			if sig, _ := sigOf(in); sig != "" {
 				mode = "known"
